@@ -8,7 +8,7 @@ import json, os
 import vf
 
 PROP = 'C17'
-CFG = {'quick': ['gen/MC_C17_q.cfg'], 'thorough': ['gen/MC_C17_t.cfg']}
+CFG = {'quick': ['gen/MC_C17_q.cfg', 'gen/MC_C17_q2.cfg'], 'thorough': ['gen/MC_C17_t.cfg']}
 NPARTS = 6
 FLAGS = ['-D_GLIBCXX_ASSERTIONS']
 
@@ -21,10 +21,12 @@ def sig(r):
         except ValueError:
             c = {}
     dev = ','.join(sorted(c.get('dev') or []))
-    s = {'dev': dev, 'what': r.get('what', 'crash'), 'fmt': r.get('fmt', '-'), 'ty': c.get('ty')}
-    if not dev:   # unlisted: fine signature (one VIOLATION line per type / case kind / route / predicted outcome)
-        s.update({'kind': c.get('k'), 'r': c.get('r', ''), 'route': r.get('route', '-')})
-    return s
+    fmt = r.get('fmt', '-')
+    if dev:       # known-deviation classes: coarse signature {dev, what, fmt class} (one root cause = a handful of signatures)
+        return {'dev': dev, 'what': r.get('what', 'crash'), 'fmt': fmt if fmt in ('-', 'ubjson') else 'stream'}
+    # unlisted: fine signature (one VIOLATION line per type / case kind / route / predicted outcome)
+    return {'dev': '', 'what': r.get('what', 'crash'), 'fmt': fmt, 'ty': c.get('ty'), 'kind': c.get('k'), 'r': c.get('r', ''),
+            'route': r.get('route', '-')}
 
 
 def binaries():
@@ -51,7 +53,7 @@ def run(tier):
         for k in range(NPARTS):
             b = bins['c17_%d' % k]
             recs = vf.run_shards(b, path)
-            vf.g_triage(rep, b, recs, sig, totals=totals)
+            vf.g_triage(rep, b, recs, sig, totals=totals, max_repro=120)
     cov = rep.coverage
     cov['traces_validated_against_impl'] = totals.get('cases', 0)
     cov['evaluations'] = totals.get('checks', 0)
@@ -66,7 +68,7 @@ def run(tier):
                    'MessagePack, UBJSON, BSON (object-rooted types) through encode_X/decode_X, try_encode_X/try_decode_X, basic_json(v), as<T>, '
                    'try_as<T>, with members in ascending and descending order')
     cov['bounds'] = {c: open(os.path.join(vf.SPEC, c)).read().split('CONSTANTS')[1].split() for c in CFG[tier]}
-    cov['samples'] = vf.sample_lines(g[0][0], 3)
+    cov['samples'] = vf.sample_lines(g[0][0], 2) + [json.loads(l) for l in open(g[0][0]) if '"inp"' in l][:2]
     rep.assumptions += ['types outside the fixed family are not decided (DESIGN 5/C17)',
                         'declared dont-care readings (never compared): lenient scalar conversions documented in json/as.md (number<->number, '
                         'bool->integer, numeric strings, anything->std::string via dump), out-of-range integers, surplus tuple/pair/array elements, '
